@@ -23,6 +23,20 @@ returns a result that never completes, or a chain of two nested results, and the
 must be the innermost value / first failure (pending while the chain is unresolved).
 Run / RunInline / SafeLink are not named by the statement and get no clause.
 
+Every call INTO the code under test (constructing the results, set / set_exception of an
+input, the combinator call, reading the returned result) is guarded: an exception that
+escapes from it is recorded as an event `Esc(at, exn)` and judged by AsyncAbs -- it never
+crashes the driver.  `New` is logged immediately BEFORE the combinator call, so a
+continuation that runs inside the call (legal when the source is already complete) is a
+normal `Run` after `New`; if the call then raises, `Esc(at="new")` follows and no result
+exists.  ContinueWith must capture what its continuation returned or raised (Exception or
+BaseException alike), so an escape from the ContinueWith call after the continuation ran is
+C17.continueWith; WhenAll / WhenAny / Unwrap escapes are flagged only where the statement
+demands success at that very point; everything the statement is silent about (Map, escapes
+from set / read) is an unjudged event (counted in the evidence as `escaped_calls`), after
+which the episode stops where nothing further could be judged.  Direction A: a step that
+raises is a drift record.
+
 Direction A: TLC -simulate behaviours of AsyncImpl are single-stepped on the real
 combinators (RunTask = exactly one loop callback); after every step the observation of the
 real result and the number of queued loop callbacks are compared with the spec state.
@@ -334,34 +348,69 @@ class _Ctx(object):
     self.n = n
     self.on_hub = on_hub
     self.fnk = fnk
-    self.ars = {i: AsyncResult() for i in range(1, n + 1)}
     self.res = None
     self.ev = []
+    self.escaped = []     # where exceptions escaped from the code under test ('init' | 'set' | 'new' | 'obs')
+    self.dead = False     # nothing further can be judged in this run
+    self.ars = {}
+    ok, ars = self._guard('init', lambda: {i: AsyncResult() for i in range(1, n + 1)})
+    if ok:
+      self.ars = ars
     self.obs = _mk_observer(self.ars)
 
+  def _guard(self, at, call):
+    """Every call into the code under test goes through here.  An exception that escapes (Exception or
+    BaseException) becomes the observable event Esc(at, exn) for AsyncAbs to judge; the driver goes on
+    (after 'new': without a result) or stops the run ('init' / 'set' / 'obs': state unknown)."""
+    try:
+      return True, call()
+    except BaseException as e:  # noqa: the scripted continuation may raise a BaseException
+      if isinstance(e, (KeyboardInterrupt, SystemExit, GeneratorExit, MemoryError)):
+        raise
+      vid = getattr(e, 'vid', -2)
+      self.ev.append({'e': 'Esc', 'at': at,
+                      'exn': vid if isinstance(vid, int) and not isinstance(vid, bool) else -2})
+      self.escaped.append(at)
+      if at != 'new':
+        self.dead = True
+      return False, None
+
   def set(self, i, kind):
+    if self.dead:
+      return
     ar = self.ars[i]
     if kind == 'ok':
       v = VOK(i)
-      ar.set(v)
+      ok, _ = self._guard('set', lambda: ar.set(v))
     elif kind == 'fail':
       v = VEX(i)
-      ar.set_exception(self.Err(v))
+      err = self.Err(v)
+      ok, _ = self._guard('set', lambda: ar.set_exception(err))
     else:
       v = i + 1
-      ar.set(self.ars[v])
-    self.ev.append({'e': 'Set', 'i': i, 'k': kind, 'v': v})
+      ok, _ = self._guard('set', lambda: ar.set(self.ars[v]))
+    if ok:
+      self.ev.append({'e': 'Set', 'i': i, 'k': kind, 'v': v})
 
   def new(self):
+    if self.dead:
+      return
+    # logged before the call: whatever the combinator does synchronously (e.g. run the continuation of an
+    # already complete source) happens after New
+    self.ev.append({'e': 'New'})
+    ok, res = self._guard('new', self._call)
+    self.res = res if ok else None
+
+  def _call(self):
     AR = self.AsyncResult
     comb = self.comb
     ins = [self.ars[i] for i in range(1, self.n + 1)]
     if comb == 'WhenAll':
-      self.res = AR.WhenAll(ins)
+      return AR.WhenAll(ins)
     elif comb == 'WhenAny':
-      self.res = AR.WhenAny(ins)
+      return AR.WhenAny(ins)
     elif comb == 'Unwrap':
-      self.res = self.ars[1].Unwrap()
+      return self.ars[1].Unwrap()
     elif comb == 'ContinueWith':
       src = self.ars[1]
 
@@ -383,7 +432,7 @@ class _Ctx(object):
           w = 99
         self.ev.append({'e': 'Run', 'ready': rdy, 'out': 'ret', 'v': w})
         return w
-      self.res = src.ContinueWith(cont, on_hub=self.on_hub)
+      return src.ContinueWith(cont, on_hub=self.on_hub)
     elif comb == 'Map':
       src = self.ars[1]
 
@@ -397,13 +446,16 @@ class _Ctx(object):
           return self.ars[2]
         self.ev.append({'e': 'Run', 'arg': arg, 'out': 'ret', 'v': 100 + arg})
         return 100 + arg
-      self.res = src.Map(fn)
-    else:
-      raise ValueError(comb)
-    self.ev.append({'e': 'New'})
+      return src.Map(fn)
+    raise ValueError(comb)
 
   def observe(self):
-    o = self.obs(self.res)
+    """Observation of the returned result at a quiescent point (None when there is nothing to observe)."""
+    if self.dead or self.res is None:
+      return None
+    ok, o = self._guard('obs', lambda: self.obs(self.res))
+    if not ok:
+      return None
     o['e'] = 'Obs'
     self.ev.append(o)
     return o
@@ -435,6 +487,8 @@ def _run_one(script):
   loop.run_until_idle()
   cx = _Ctx(script['comb'], script['n'], script.get('on_hub', True), script.get('fnk', 'ret'))
   for op in script['ops']:
+    if cx.dead:
+      break
     k = op[0]
     if k == 'set':
       cx.set(op[1], op[2])
@@ -442,8 +496,7 @@ def _run_one(script):
       cx.new()
     elif k == 'q':
       loop.run_until_idle()
-      if cx.res is not None:
-        cx.observe()
+      cx.observe()
     elif k == 'step':
       loop.step(op[1])
   return {'cfg': {'comb': script['comb'], 'n': script['n']}, 'ev': cx.ev,
@@ -471,13 +524,18 @@ def _episode(t, consumed):
 
 
 def extra_coverage(prop, tier, traces):
-  return {'combinator_calls_evaluated': sum(1 + sum(1 for e in t['ev'] if e['e'] == 'Reset') for t in traces)}
+  return {'combinator_calls_evaluated': sum(1 + sum(1 for e in t['ev'] if e['e'] == 'Reset') for t in traces),
+          # exceptions that escaped from a call into the code under test (judged by EscCheck; the ones the
+          # statement is silent about pass as unjudged events)
+          'escaped_calls': sum(1 for t in traces for e in t['ev'] if e['e'] == 'Esc')}
 
 
 def witness(prop, t, consumed, clause):
   comb, ev, consumed = _episode(t, consumed)
   shape = 'other'
-  if consumed < len(ev) and ev[consumed].get('e') == 'Obs':
+  if consumed < len(ev) and ev[consumed].get('e') == 'Esc':
+    shape = 'escaped-call'
+  elif consumed < len(ev) and ev[consumed].get('e') == 'Obs':
     o = ev[consumed]
     new_at = next((j for j, e in enumerate(ev) if e['e'] == 'New'), len(ev))
     pre = [e for e in ev[:new_at] if e['e'] == 'Set']
@@ -527,16 +585,30 @@ def _replay_one(script):
   steps = 0
   drift = None
   for (act, st) in beh[1:]:
+    if cx.dead:
+      break
     name, params = act
-    if name == 'SetInput':
-      cx.set(params[0], params[1])
-    elif name == 'Call':
-      cx.new()
-    elif name == 'RunTask':
-      loop.step_callback()
-    else:
-      raise RuntimeError('unknown action %r' % (name,))
+    raised = None
+    try:
+      if name == 'SetInput':
+        cx.set(params[0], params[1])
+      elif name == 'Call':
+        cx.new()
+      elif name == 'RunTask':
+        loop.step_callback()
+      else:
+        raise RuntimeError('unknown action %r' % (name,))
+    except RuntimeError:
+      raise
+    except Exception as e:   # a step of the replay itself failed: drift, never a crash
+      raised = 'step: %r' % (e,)
     steps += 1
+    if raised is None and cx.escaped:
+      # the model never lets an exception out of a call: the real code did (the Esc event is in the trace
+      # and is judged by AsyncAbs like any other observation)
+      raised = 'exception escaped from the code under test at %s' % cx.escaped[-1]
+    if drift is None and raised is not None:
+      drift = {'step': steps, 'action': [name, params], 'spec': 'no exception', 'real': raised}
     if drift is None:
       try:
         spec = {'pending': len(st['runq'])}
@@ -551,8 +623,7 @@ def _replay_one(script):
       if spec != real:
         drift = {'step': steps, 'action': [name, params], 'spec': spec, 'real': real}
   loop.run_until_idle()
-  if cx.res is not None:
-    cx.observe()
+  cx.observe()
   return {'cfg': {'comb': comb, 'n': n}, 'ev': cx.ev, 'steps': steps, 'drift': drift}
 
 
